@@ -273,13 +273,15 @@ def Variant.current : Variant := ⟨true, true⟩
 
 /-! ## 5. Biclosed rule boxes -/
 
-/-- A biclosed box other than `Curry`: a generic `Box`/`Word`, or one of the rule boxes with
+/-- A biclosed box other than `Curry`: a generic `Box`/`Word` (`gen`; `dgen` when it was built
+    with `_dagger=True`), or one of the rule boxes with
     the slash types it was built from already taken apart
     (`fa l r = FA(l << r)`, `ba l r = BA(l >> r)`, `fc a b c d = FC(a << b, c << d)`,
     `bc a b c d = BC(a >> b, c >> d)`, `fx a b c d = FX(a << b, c >> d)`,
     `bx a b c d = BX(a << b, c >> d)`). -/
 inductive Rule where
   | gen (name : String) (dom cod : BTy)
+  | dgen (name : String) (dom cod : BTy)     -- `Box(name, dom, cod, _dagger=True)`
   | fa (l r : BTy)
   | ba (l r : BTy)
   | fc (a b c d : BTy)
@@ -300,6 +302,7 @@ def Rule.check : Rule → Bool
 /-- `box.dom`, biclosed.py:166, 178, 195, 209, 223, 237. -/
 def Rule.dom : Rule → BTy
   | .gen _ dom _ => dom
+  | .dgen _ dom _ => dom
   | .fa l r => BTy.over l r ++ r
   | .ba l r => l ++ BTy.under l r
   | .fc a b c d => BTy.over a b ++ BTy.over c d
@@ -310,12 +313,24 @@ def Rule.dom : Rule → BTy
 /-- `box.cod`, same lines. -/
 def Rule.cod : Rule → BTy
   | .gen _ _ cod => cod
+  | .dgen _ _ cod => cod
   | .fa l _ => l
   | .ba _ r => r
   | .fc a _ _ d => BTy.over a d          -- left.left << right.right
   | .bc a _ _ d => BTy.under a d         -- left.left >> right.right
   | .fx a _ c _ => BTy.under c a         -- right.left >> left.left
   | .bx _ b _ d => BTy.over d b          -- right.right << left.right
+
+/-- `dom = dom or cod[0:0]`, cfg.py:51 (`Word.__init__`; `dom=None` and an empty type are both
+    falsy). -/
+def wordDom (dom cod : BTy) : BTy := if dom = [] then pySlice cod (some 0) (some 0) else dom
+
+/-- `Word(name, cod, dom=dom, _dagger=dagger)`, cfg.py:46-54 (`cfg.Word`; `ccg.Word` is
+    `class Word(cfg.Word, Box)`, ccg.py:13-14, with the same constructor): a generic box whose
+    domain is the optional `dom` argument.  `biclosed2rigid` has no case for words: they take
+    the `ar` map of generic boxes (biclosed.py:301-303). -/
+def mkWord (name : String) (cod dom : BTy) (dagger : Bool) : Rule :=
+  if dagger then .dgen name (wordDom dom cod) cod else .gen name (wordDom dom cod) cod
 
 /-! ## 6. The rigid images, rigid.py:207-250 -/
 
@@ -419,6 +434,8 @@ def bxImg (dom : BTy) : Except Err Diagram :=
 def Rule.imgCore (v : Variant) : Rule → Except Err Diagram
   | .gen name dom cod =>                                   -- biclosed.py:302-303
     .ok (Diagram.ofBox { name := name, dom := BTy.img dom, cod := BTy.img cod })
+  | .dgen name dom cod =>                                  -- cat.py:860-861: `ar[box.dagger()].dagger()`
+    .ok (Diagram.ofBox (Box.dag { name := name, dom := BTy.img cod, cod := BTy.img dom }))
   | .fa l r =>                                             -- biclosed.py:273-276
     rigidFa (BTy.img (Rule.fa l r).dom.first) (BTy.img (Rule.fa l r).dom.rest)
   | .ba l r =>
@@ -639,24 +656,31 @@ def nodeBD (v : Variant) (type : String) (cat : List Char) (kids : List BD) : Ex
     | .ok box => (BD.tensorAll v (.id []) kids).then v (BD.ofRule box)
 
 mutual
-/-- `tree2diagram(tree)`, ccg.py:46-64. -/
-def CTree.toBD (v : Variant) : CTree → Except Err BD
-  | .word w cat =>
+/-- `tree2diagram(tree, dom=dom)`, ccg.py:46-64.  The optional `dom` (default `Ty()`) is the
+    domain of the word of a LEAF tree (ccg.py:52); an inner node overwrites it (ccg.py:54) and
+    translates its children with the default (`map(tree2diagram, tree['children'])`, ccg.py:53). -/
+def CTree.toBD (v : Variant) : CTree → BTy → Except Err BD
+  | .word w cat, dom =>
     match cat2ty cat with
     | .error e => .error e
-    | .ok cod => .ok (BD.ofRule (.gen w [] cod))
-  | .node type cat children =>
+    | .ok cod => .ok (BD.ofRule (mkWord w cod dom false))
+  | .node type cat children, _ =>
     match CTree.listToBD v children with
     | .error e => .error e
     | .ok kids => nodeBD v type cat kids
 def CTree.listToBD (v : Variant) : List CTree → Except Err (List BD)
   | [] => .ok []
   | t :: ts =>
-    match t.toBD v with
+    match t.toBD v [] with
     | .error e => .error e
     | .ok d => match CTree.listToBD v ts with
       | .error e => .error e
       | .ok ds => .ok (d :: ds)
 end
+
+/-- The domain of `tree2diagram(tree, dom=dom)`: `dom` for a leaf, empty for an inner node. -/
+def CTree.domOf : CTree → BTy → BTy
+  | .word _ _, dom => dom
+  | .node _ _ _, _ => []
 
 end DV
